@@ -593,3 +593,13 @@ def run(ctx):
                                 ctx.where(NB, start), key='SHAPE:%sencode_term_impl:%s.%s:dropped-on-a-path' % (ENC, v['n'], f['n']))
                     else:
                         ctx.ok('C01.2-variant-fields-written', inst, 'every successful path of the arm and its encoder passes a write / sub-encoder call fed from the field (%d such call(s))' % len(uses), ctx.where(NB, start))
+
+
+_run_before_cache_rules = run
+
+
+def run(ctx):
+    _run_before_cache_rules(ctx)
+    # decode(encode(x)) of a message with a distribution header resolves its ATOM_CACHE_REFs through the connection's cache: what earlier messages entered must be there unchanged (C14 rules re-run)
+    from .c14 import cache_threading
+    cache_threading(ctx, 'C01.9-cache-kept')
